@@ -6,7 +6,8 @@
   specification of C01), `DateSufficient` / `TimeSufficient` (the documented combinations),
   `GroupCoherent` / `GroupDeterminate` (year groups).  Helper lemmas: Proofs/ParsedL.lean,
   Proofs/ParsedDateL.lean, Proofs/ParsedDtL.lean, Proofs/ParsedIsoL.lean (on C01's ISO-week theorems),
-  Proofs/ParsedTsL.lean (on C02/C03), Proofs/ParsedZonedL.lean (on C04), Proofs/ParsedZoneL.lean
+  Proofs/ParsedTsL.lean (on C02/C03), Proofs/ParsedTsCompleteL.lean (completeness of the timestamp
+  fall-back), Proofs/ParsedZonedL.lean (on C04), Proofs/ParsedZoneL.lean
   (arbitrary zones: Model/ParsedZone.lean's `to_datetime_with_timezone_gen`, step zones).
 
   `InType p` says that every field holds a value of its Rust type (`i32`/`u32`/`i64`); it is the
@@ -16,6 +17,7 @@
 -/
 import Chrono.Proofs.ParsedZonedL
 import Chrono.Proofs.ParsedZoneL
+import Chrono.Proofs.ParsedTsCompleteL
 
 namespace Chrono.Props.C14
 open Chrono Chrono.M Chrono.Spec Chrono.Spec.Fields Chrono.Spec.Ts Chrono.Proofs Chrono.Proofs.ParsedRes Chrono.Extracted
@@ -274,10 +276,10 @@ theorem datetime_sound_fields (p : Parsed) (hp : InType p) (off : Int)
 /-- completeness for date-times on the field path: date fields as in `date_complete`, time fields
 agreeing with a real time of day and sufficient, and a timestamp field (if supplied) that is the
 timestamp of that local reading at the given offset (or one more for a leap second) ⇒ exactly that
-date-time.  Not covered by a completeness theorem (soundness and no-panic are: `datetime_sound`;
-completeness is compared with the implementation and checked by the harness oracle only): the
-fall-back path that reconstructs year, ordinal, hour, minute and second from the timestamp when the
-other fields are insufficient. -/
+date-time.  The fall-back path that reconstructs year, ordinal, hour, minute and second from the
+timestamp when the other fields are insufficient has its own completeness theorem:
+`datetime_complete_timestamp` below (non-leap readings; a record with second 60 on that path is covered
+by soundness and no-panic only: `datetime_sound`). -/
 theorem datetime_complete_fields (p : Parsed) (hp : InType p) (off : Int)
     (hoff : -2147483648 ≤ off ∧ off ≤ 2147483647) (Y : Int) (o : Nat) (t : Time) (hvd : VD Y o)
     (hag : DateAgrees p Y o)
@@ -338,6 +340,75 @@ example :
       = .ok (.error .impossible) := by
   decide +kernel
 
+/-! ### completeness of the timestamp fall-back -/
+
+/-- completeness of `to_naive_datetime_with_offset` THROUGH THE TIMESTAMP (the fall-back path: date
+or time fields are insufficient, so year, ordinal, hour, minute and second are reconstructed from the
+timestamp): for every existing day `(Y, o)`, every non-leap time of day `t` and every offset `off`
+(no restriction on `off`), a record
+  * whose timestamp field is the timestamp of that local reading at `off`
+    (`instSecsLocal ⟨(Y, o), t⟩ − off`),
+  * whose other supplied date and time fields — any subset — agree with that reading
+    (`DateAgrees`, `TimeAgreesSupplied`), with determinate year groups,
+  * whose nanosecond field, if supplied, is the sub-second part of `t` (`hta`), and `t` has a zero
+    sub-second part if it is not supplied (`hnano`),
+  * and that does not contain a sufficient date combination together with a sufficient time
+    combination (`hfb`; that case is `datetime_complete_fields`)
+resolves to exactly `⟨(Y, o), t⟩`: the seconds of the timestamp plus the nanosecond field.
+(Rests on C02's `from_timestamp_spec` and `inst_inj`, and on `date_complete` / `time_complete` for the
+record with the five reconstructed fields filled in.) -/
+theorem datetime_complete_timestamp (p : Parsed) (hp : InType p) (off : Int) (Y : Int) (o : Nat) (t : Time)
+    (hvd : VD Y o) (ht : TValid t) (hnl : t.frac < 1000000000)
+    (hag : DateAgrees p Y o)
+    (hdY : GroupDeterminate p.year p.year_div_100 p.year_mod_100 Y)
+    (hdI : ∀ w, (dateOfYo Y o).iso_week = .ok w →
+      GroupDeterminate p.isoyear p.isoyear_div_100 p.isoyear_mod_100 (IsoWeek.year w))
+    (hta : TimeAgreesSupplied p t) (hnano : p.nanosecond = none → t.frac = 0)
+    (hts : p.timestamp = some (timestampIs.instSecsLocal ⟨dateOfYo Y o, t⟩ - off))
+    (hfb : ¬ (DateSufficient p ∧ TimeSufficient p)) :
+    Parsed.to_naive_datetime_with_offset p off = .ok (.ok ⟨dateOfYo Y o, t⟩) :=
+  dt_complete_ts p hp off Y o t hvd ht hnl hag hdY hdI hta hnano hts hfb
+
+/-- the record that holds only a timestamp and, optionally, a nanosecond and an offset field: for
+EVERY existing day, every non-leap time of day and every offset it resolves to that local reading —
+all hypotheses of `datetime_complete_timestamp` are met (non-vacuity, and the form C13 uses) -/
+theorem datetime_complete_timestamp_only (off : Int) (hoff : -2147483648 ≤ off ∧ off ≤ 2147483647)
+    (Y : Int) (o : Nat) (t : Time) (hvd : VD Y o) (ht : TValid t) (hnl : t.frac < 1000000000) (nano offset : Option Int)
+    (hn : nano = some t.frac ∨ (nano = none ∧ t.frac = 0))
+    (ho : ∀ x, offset = some x → -2147483648 ≤ x ∧ x ≤ 2147483647) :
+    Parsed.to_naive_datetime_with_offset
+      { timestamp := some (timestampIs.instSecsLocal ⟨dateOfYo Y o, t⟩ - off), nanosecond := nano,
+        offset := offset } off = .ok (.ok ⟨dateOfYo Y o, t⟩) := by
+  obtain ⟨_, hb1, hb2⟩ := timestamp_spec Y o t hvd ht
+  obtain ⟨w, hw⟩ := iso_week_ok Y o hvd
+  obtain ⟨t0, t1, f0, f1⟩ := id ht
+  have hno : ∀ x, (none : Option Int) = some x → False := fun x h => by cases h
+  refine datetime_complete_timestamp _ ?_ off Y o t hvd ht hnl ?_ ?_ ?_ ?_ ?_ rfl ?_
+  · have n : ∀ lo hi, optIn (none : Option Int) lo hi := fun _ _ x h => (hno x h).elim
+    refine ⟨n _ _, n _ _, n _ _, n _ _, n _ _, n _ _, n _ _, n _ _, n _ _, n _ _, n _ _, n _ _, n _ _,
+      n _ _, n _ _, n _ _, n _ _, fun x h => ?_, fun x h => ?_, ho⟩
+    · rcases hn with h' | ⟨h', _⟩
+      · rw [h'] at h; cases h; omega
+      · rw [h'] at h; cases h
+    · cases h; omega
+  · exact ⟨fun x h => (hno x h).elim, ⟨fun x h => (hno x h).elim, fun x h => (hno x h).elim⟩,
+      fun x h => (hno x h).elim, fun x h => (hno x h).elim, fun x h => (hno x h).elim,
+      fun x h => (hno x h).elim, fun x h => (by cases h), fun x h => (hno x h).elim,
+      fun x h => (hno x h).elim, ⟨w, hw, fun x h => (hno x h).elim,
+        ⟨fun x h => (hno x h).elim, fun x h => (hno x h).elim⟩, fun x h => (hno x h).elim⟩⟩
+  · exact ⟨fun h => h.2.1 rfl, fun _ _ h => (h rfl).elim⟩
+  · intro w' _; exact ⟨fun h => h.2.1 rfl, fun _ _ h => (h rfl).elim⟩
+  · refine ⟨fun x h => (hno x h).elim, fun x h => (hno x h).elim, fun x h => (hno x h).elim,
+      fun x h => (hno x h).elim, fun x h => ?_⟩
+    rcases hn with h' | ⟨h', _⟩
+    · rw [h'] at h; cases h; omega
+    · rw [h'] at h; cases h
+  · intro h
+    rcases hn with h' | ⟨_, h'⟩
+    · rw [h'] at h; cases h
+    · exact h'
+  · intro h; exact h.2.1 rfl
+
 /-- `to_fixed_offset`: the supplied offset iff it is a valid `FixedOffset` (strictly between −24 h
 and +24 h); NOT_ENOUGH iff no offset is supplied; otherwise OUT_OF_RANGE.  Cannot panic. -/
 theorem fixed_offset_sound (p : Parsed) :
@@ -366,6 +437,140 @@ theorem to_datetime_with_timezone_sound (p : Parsed) (hp : InType p) (zone : Int
       (∀ e, r = .error e → e = .notEnough ∨ e = .impossible ∨ e = .outOfRange) ∧
       (∀ z, r = .ok z → ZonedOk p z zone) :=
   to_datetime_tz_spec p hp zone hz
+
+/-- non-vacuity with further fields: for EVERY existing day, non-leap time of day and offset, the
+record holding the timestamp, the minute and the 12-hour-clock hour (no date field, no am/pm: neither
+resolver has enough) resolves to the reading, sub-second part from the nanosecond field -/
+example (off : Int) (hoff : -2147483648 ≤ off ∧ off ≤ 2147483647) (Y : Int) (o : Nat) (t : Time)
+    (hvd : VD Y o) (ht : TValid t) (hnl : t.frac < 1000000000) :
+    Parsed.to_naive_datetime_with_offset
+      { timestamp := some (timestampIs.instSecsLocal ⟨dateOfYo Y o, t⟩ - off), nanosecond := some t.frac,
+        minute := some (minuteOf t), hour_mod_12 := some (hourOf t % 12) } off =
+      .ok (.ok ⟨dateOfYo Y o, t⟩) := by
+  obtain ⟨_, hb1, hb2⟩ := timestamp_spec Y o t hvd ht
+  obtain ⟨w, hw⟩ := iso_week_ok Y o hvd
+  obtain ⟨t0, t1, f0, f1⟩ := id ht
+  have hno : ∀ x, (none : Option Int) = some x → False := fun x h => by cases h
+  have n : ∀ lo hi, optIn (none : Option Int) lo hi := fun _ _ x h => (hno x h).elim
+  refine datetime_complete_timestamp _ ?_ off Y o t hvd ht hnl ?_ ?_ ?_ ?_ ?_ rfl ?_
+  · refine ⟨n _ _, n _ _, n _ _, n _ _, n _ _, n _ _, n _ _, n _ _, n _ _, n _ _, n _ _, n _ _, n _ _,
+      n _ _, fun x h => ?_, fun x h => ?_, n _ _, fun x h => ?_, fun x h => ?_, n _ _⟩
+    · cases h; unfold hourOf; omega
+    · cases h; unfold minuteOf; omega
+    · cases h; omega
+    · cases h; omega
+  · exact ⟨fun x h => (hno x h).elim, ⟨fun x h => (hno x h).elim, fun x h => (hno x h).elim⟩,
+      fun x h => (hno x h).elim, fun x h => (hno x h).elim, fun x h => (hno x h).elim,
+      fun x h => (hno x h).elim, fun x h => (by cases h), fun x h => (hno x h).elim,
+      fun x h => (hno x h).elim, ⟨w, hw, fun x h => (hno x h).elim,
+        ⟨fun x h => (hno x h).elim, fun x h => (hno x h).elim⟩, fun x h => (hno x h).elim⟩⟩
+  · exact ⟨fun h => h.2.1 rfl, fun _ _ h => (h rfl).elim⟩
+  · intro w' _; exact ⟨fun h => h.2.1 rfl, fun _ _ h => (h rfl).elim⟩
+  · exact ⟨fun x h => (hno x h).elim, fun x h => (by cases h; rfl), fun x h => (by cases h; rfl),
+      fun x h => (hno x h).elim, fun x h => (by cases h; omega)⟩
+  · intro h; cases h
+  · intro h; exact h.2.1 rfl
+
+/-- completeness of `to_datetime` through the timestamp: for every well-formed zone-aware value `z`
+whose wall clock is the existing day `(Y, o)` at the non-leap time `t`, a record whose timestamp field
+is the instant of `z`, whose offset field is `z`'s offset (or is absent, `z` being at UTC), whose
+other fields agree with that wall clock (as in `datetime_complete_timestamp`) and are not sufficient
+on their own resolves to exactly `z`: that instant at that offset.  (On C04's `utc_of_fromUtc` /
+`local_of_fromLocal`.) -/
+theorem to_datetime_complete_timestamp (p : Parsed) (hp : InType p) (z : Zoned) (hz : ZInv z)
+    (Y : Int) (o : Nat) (t : Time) (hvd : VD Y o) (ht : TValid t) (hnl : t.frac < 1000000000)
+    (hl : Zoned.naive_local z = .ok ⟨dateOfYo Y o, t⟩)
+    (hag : DateAgrees p Y o)
+    (hdY : GroupDeterminate p.year p.year_div_100 p.year_mod_100 Y)
+    (hdI : ∀ w, (dateOfYo Y o).iso_week = .ok w →
+      GroupDeterminate p.isoyear p.isoyear_div_100 p.isoyear_mod_100 (IsoWeek.year w))
+    (hta : TimeAgreesSupplied p t) (hnano : p.nanosecond = none → t.frac = 0)
+    (hts : p.timestamp = some (instSecs z.utc))
+    (hoff : p.offset = some z.off ∨ (p.offset = none ∧ z.off = 0))
+    (hfb : ¬ (DateSufficient p ∧ TimeSufficient p)) :
+    Parsed.to_datetime p = .ok (.ok z) :=
+  to_datetime_complete_ts p hp z hz Y o t hvd ht hnl hl hag hdY hdI hta hnano hts hoff hfb
+
+/-- completeness of `to_datetime_with_timezone` for the fixed zone `z.off` (`Utc`: 0) through the
+timestamp: as above; an offset field, if supplied, is the zone's offset -/
+theorem to_datetime_with_timezone_complete_timestamp (p : Parsed) (hp : InType p) (z : Zoned) (hz : ZInv z)
+    (Y : Int) (o : Nat) (t : Time) (hvd : VD Y o) (ht : TValid t) (hnl : t.frac < 1000000000)
+    (hl : Zoned.naive_local z = .ok ⟨dateOfYo Y o, t⟩)
+    (hag : DateAgrees p Y o)
+    (hdY : GroupDeterminate p.year p.year_div_100 p.year_mod_100 Y)
+    (hdI : ∀ w, (dateOfYo Y o).iso_week = .ok w →
+      GroupDeterminate p.isoyear p.isoyear_div_100 p.isoyear_mod_100 (IsoWeek.year w))
+    (hta : TimeAgreesSupplied p t) (hnano : p.nanosecond = none → t.frac = 0)
+    (hts : p.timestamp = some (instSecs z.utc))
+    (hoff : ∀ x, p.offset = some x → x = z.off)
+    (hfb : ¬ (DateSufficient p ∧ TimeSufficient p)) :
+    Parsed.to_datetime_with_timezone p z.off = .ok (.ok z) :=
+  to_datetime_tz_complete_ts p hp z hz Y o t hvd ht hnl hl hag hdY hdI hta hnano hts hoff hfb
+
+/-- the record holding only the timestamp and the offset of a zone-aware value `z` (whole second, wall
+clock in range) — what `%s %z` reads — resolves to `z` through `to_datetime` and through
+`to_datetime_with_timezone(&z.offset())`; without the offset field, `to_datetime` gives the same
+instant at UTC -/
+theorem to_datetime_complete_timestamp_only (z : Zoned) (hz : ZInv z) (Y : Int) (o : Nat) (t : Time)
+    (hvd : VD Y o) (ht : TValid t) (hf : t.frac = 0)
+    (hl : Zoned.naive_local z = .ok ⟨dateOfYo Y o, t⟩) :
+    Parsed.to_datetime { timestamp := some (instSecs z.utc), offset := some z.off } = .ok (.ok z) ∧
+    Parsed.to_datetime_with_timezone { timestamp := some (instSecs z.utc), offset := some z.off } z.off
+      = .ok (.ok z) ∧
+    Parsed.to_datetime_with_timezone { timestamp := some (instSecs z.utc) } z.off = .ok (.ok z) ∧
+    (z.off = 0 → Parsed.to_datetime { timestamp := some (instSecs z.utc) } = .ok (.ok z)) := by
+  obtain ⟨w, hw⟩ := iso_week_ok Y o hvd
+  have hr := Chrono.Proofs.Ts.instSecs_range z.utc hz.1
+  rw [Chrono.Proofs.Ts.ts_min_val, Chrono.Proofs.Ts.ts_max_val] at hr
+  have hzo := hz.2
+  unfold OffValid at hzo
+  have hno : ∀ x, (none : Option Int) = some x → False := fun x h => by cases h
+  have n : ∀ lo hi, optIn (none : Option Int) lo hi := fun _ _ x h => (hno x h).elim
+  have hIT : ∀ off : Option Int, (∀ x, off = some x → x = z.off) →
+      InType { timestamp := some (instSecs z.utc), offset := off } := fun off ho =>
+    ⟨n _ _, n _ _, n _ _, n _ _, n _ _, n _ _, n _ _, n _ _, n _ _, n _ _, n _ _, n _ _, n _ _,
+      n _ _, n _ _, n _ _, n _ _, n _ _, fun x h => (by cases h; omega),
+      fun x h => (by rw [ho x h]; omega)⟩
+  have hDA : ∀ off : Option Int,
+      DateAgrees { timestamp := some (instSecs z.utc), offset := off } Y o := fun off =>
+    ⟨fun x h => (hno x h).elim, ⟨fun x h => (hno x h).elim, fun x h => (hno x h).elim⟩,
+      fun x h => (hno x h).elim, fun x h => (hno x h).elim, fun x h => (hno x h).elim,
+      fun x h => (hno x h).elim, fun x h => (by cases h), fun x h => (hno x h).elim,
+      fun x h => (hno x h).elim, ⟨w, hw, fun x h => (hno x h).elim,
+        ⟨fun x h => (hno x h).elim, fun x h => (hno x h).elim⟩, fun x h => (hno x h).elim⟩⟩
+  have hGD : ∀ yr, GroupDeterminate (none : Option Int) none none yr :=
+    fun yr => ⟨fun h => h.2.1 rfl, fun _ _ h => (h rfl).elim⟩
+  have hTA : ∀ off : Option Int,
+      TimeAgreesSupplied { timestamp := some (instSecs z.utc), offset := off } t := fun off =>
+    ⟨fun x h => (hno x h).elim, fun x h => (hno x h).elim, fun x h => (hno x h).elim,
+      fun x h => (hno x h).elim, fun x h => (hno x h).elim⟩
+  have hsome : ∀ x, some z.off = some x → x = z.off := fun x h => by cases h; rfl
+  refine ⟨?_, ?_, ?_, fun h0 => ?_⟩
+  · exact to_datetime_complete_timestamp _ (hIT _ hsome) z hz Y o t hvd ht (by omega) hl (hDA _) (hGD _)
+      (fun _ _ => hGD _) (hTA _) (fun _ => hf) rfl (Or.inl rfl) (fun h => h.1.2.2.elim
+        (fun h' => h'.2.elim (fun a => a.1 rfl) (fun a => a.elim (fun b => b rfl)
+          (fun b => b.elim (fun c => c.1 rfl) (fun c => c.1 rfl)))) (fun h' => h'.2.1 rfl))
+  · exact to_datetime_with_timezone_complete_timestamp _ (hIT _ hsome) z hz Y o t hvd ht (by omega) hl
+      (hDA _) (hGD _) (fun _ _ => hGD _) (hTA _) (fun _ => hf) rfl hsome (fun h => h.2.1 rfl)
+  · exact to_datetime_with_timezone_complete_timestamp _ (hIT _ (fun x h => (hno x h).elim)) z hz Y o t
+      hvd ht (by omega) hl (hDA _) (hGD _) (fun _ _ => hGD _) (hTA _) (fun _ => hf) rfl
+      (fun x h => (hno x h).elim) (fun h => h.2.1 rfl)
+  · exact to_datetime_complete_timestamp _ (hIT _ (fun x h => (hno x h).elim)) z hz Y o t hvd ht
+      (by omega) hl (hDA _) (hGD _) (fun _ _ => hGD _) (hTA _) (fun _ => hf) rfl (Or.inr ⟨rfl, h0⟩)
+      (fun h => h.2.1 rfl)
+
+/-- non-vacuity: 2024-02-29T12:00:00+01:00 (11:00:00Z = 1709204400) from the timestamp and the offset
+alone; the same timestamp without offset is read at UTC; with a fixed zone of −05:00 it is that instant
+at −05:00; a contradicting minute is IMPOSSIBLE -/
+example :
+    Parsed.to_datetime { timestamp := some 1709204400, offset := some 3600 }
+      = .ok (.ok ⟨⟨dateOfYo 2024 60, ⟨39600, 0⟩⟩, 3600⟩) ∧
+    Parsed.to_datetime { timestamp := some 1709204400 } = .ok (.ok ⟨⟨dateOfYo 2024 60, ⟨39600, 0⟩⟩, 0⟩) ∧
+    Parsed.to_datetime_with_timezone { timestamp := some 1709204400, nanosecond := some 5 } (-18000)
+      = .ok (.ok ⟨⟨dateOfYo 2024 60, ⟨39600, 5⟩⟩, -18000⟩) ∧
+    Parsed.to_datetime { timestamp := some 1709204400, offset := some 3600, minute := some 1 }
+      = .ok (.error .impossible) := by
+  decide +kernel
 
 /-- non-vacuity: 2024-02-29T12:00 at +01:00 (UTC reading 11:00), a contradicting zone, a missing
 offset, an offset of a full day -/
